@@ -462,6 +462,15 @@ func cloneSpec(t *TableSpec) *TableSpec {
 }
 
 func runC02(ctx *Ctx) {
+	if ctx.Idx%12 == 8 {
+		// one more history: columns with names as files have them (spaces, quotes, separators), one key
+		// column named after two others; the key changes between the combined column and the two
+		defer func() {
+			r := rand.New(rand.NewSource(ctx.Seed*1000003 + int64(ctx.Idx) + 0x6e616d65))
+			in, tags := genHistoryNamed(r, ctx.Idx/12, ctx.Thorough(), true)
+			emitHistory(ctx, "cli-ids", in, tags...)
+		}()
+	}
 	if ctx.Idx%6 == 5 {
 		// in addition to the case of this index: the identifier as the commit command sees it, over a
 		// history of commits from the branch's configured file and key (c02.go; a random stream of its own)
